@@ -124,6 +124,13 @@ def do_command(w, dbdir, cmd, rng_seed):
 		return run_cli(['tree', '--no-progress', '-s', os.path.join(dbdir, 'ref.gs')])[0]
 	if cmd == 'dist-rs-dbsigs':
 		return run_cli(['dist', '-o', out, '--no-progress', '--rs', os.path.join(dbdir, 'ref.gs')] + sum([['-q', x['path']] for x in g], []))[0]
+	if cmd == 'lib-rplus-other':
+		# a legitimate read-write open of a file that is NOT part of the database; must not influence later database opens
+		from gambit.sigs import load_signatures
+		p, _ = w.sigfile(g)
+		sg = load_signatures(p, mode='r+')
+		sg.close()
+		return 0
 	if cmd == 'lib':
 		from gambit.db import ReferenceDatabase
 		from gambit.query import query
@@ -145,7 +152,7 @@ def do_command(w, dbdir, cmd, rng_seed):
 
 
 CMDS = ['query-files', 'query-list', 'query-sigs', 'query-mismatch', 'query-missing', 'query-badopt', 'dist-db', 'dist-db-mismatch', 'info-db', 'info-file',
-        'create-dbparams', 'tree-dbsigs', 'dist-rs-dbsigs', 'lib']
+        'create-dbparams', 'tree-dbsigs', 'dist-rs-dbsigs', 'lib', 'lib-rplus-other', 'lib']
 
 
 def check(ctx, case):
@@ -189,6 +196,7 @@ def check(ctx, case):
 			session = CLIContext(cctx).Session()
 		from gambit.db import ReferenceGenomeSet
 		gset = session.query(ReferenceGenomeSet).one()
+		gset_id = gset.id
 		n0 = session.query(Taxon).count()
 		outs = []
 		toks = []
@@ -196,7 +204,7 @@ def check(ctx, case):
 		for i, op in enumerate(case['ops']):
 			try:
 				if op == 'add':
-					session.add(Taxon(name=f'new{i}', key=f'new-taxon-{i}', genome_set=gset))
+					session.add(Taxon(name=f'new{i}', key=f'new-taxon-{i}', genome_set_id=gset_id))
 					toks.append(f'add:{1000 + i}'); outs.append('ok')
 				elif op == 'del':
 					session.delete(existing[i % len(existing)])
@@ -204,6 +212,13 @@ def check(ctx, case):
 				elif op == 'mod':
 					existing[i % len(existing)].name = f'renamed{i}'
 					toks.append(f'add:{3000 + i}'); outs.append('ok')
+				elif op == 'sql':
+					# a statement executed directly on the connection (bypasses the unit of work): must never become durable either
+					from sqlalchemy import text
+					toks.append(f'sql:{4000 + i}')
+					session.execute(text("INSERT INTO taxa (key, name, report, genome_set_id) VALUES (:k, :n, 1, :g)"),
+					                {'k': f'newsql-{i}', 'n': f'newsql{i}', 'g': gset_id})
+					outs.append('ok')
 				elif op == 'flush':
 					toks.append('flush'); session.flush(); outs.append('ok')
 				elif op == 'commit':
@@ -254,7 +269,7 @@ def run(ctx):
 		for j in range(ctx.q(150, 800)):
 			if not ctx.time_left(0.95):
 				break
-			ops = [rng.choice(['add', 'del', 'mod', 'flush', 'commit', 'query', 'query', 'rollback', 'close']) for _ in range(rng.randint(1, 12))]
+			ops = [rng.choice(['add', 'del', 'mod', 'sql', 'flush', 'commit', 'commit', 'query', 'query', 'rollback', 'close']) for _ in range(rng.randint(1, 12))]
 			sub({'kind': 'session', 'via': rng.choice(['default', 'refdb', 'cli']), 'ops': ops}, 'session-history')
 	finally:
 		if _w is not None:
